@@ -25,9 +25,6 @@ def _jobs(tier):
                        expect=["length preserved"] + ([] if L == 0 else ["decode: out[L-1-i] == O-str(in[i])"])))
         js.append(dict(name=f"inverse[{L}]", fn="inverse", args=[L], collect_models=1,
                        expect=["length preserved"] + ([] if L == 0 else ["decode(encode(x))[i] == x[i] unless 0x7E"])))
-    if tier != "quick":
-        # beyond a 4096-byte window (seed C08l): the round trip only, all 4097 bytes symbolic
-        js.append(dict(name="inverse[4097]", fn="inverse", args=[4097], collect_models=1, expect=["length preserved", "decode(encode(x))[i] == x[i] unless 0x7E"]))
     for L0, L in (((1, 1), (2, 3), (3, 2), (4, 4)) if tier == "quick" else [(a, b) for a in range(0, 7) for b in range(0, 7)] + [(33, 33), (64, 65)]):
         js.append(dict(name=f"after_earlier_calls[{L0},{L}]", fn="after_earlier_calls", args=[L0, L], collect_models=1,
                        expect=["after earlier calls: length preserved"]))
